@@ -470,7 +470,7 @@ class ContractRun:
     """A task: `body(c)` plus the static description needed for native replay."""
 
     def __init__(self, body, clauses=(), raises=None, frame=(), fresh=False, names=None, unchanged_on_raise=True,
-                 replayable=True, use=(), pool=None, cuts=None):
+                 replayable=True, use=(), pool=None, cuts=None, nosumm=()):
         self.body = body
         self.clauses = list(clauses)
         self.raises = raises
@@ -482,6 +482,7 @@ class ContractRun:
         self.use = tuple(use)     # names of modular contracts (summaries.MODULAR) assumed at call sites
         self.pool = pool          # callable(envr) -> iterable of (func, recv, args, kwargs, fields) native call instances
         self.cuts = cuts          # {(qualname, loop ordinal): loop cut} - inductive invariants used in this run
+        self.nosumm = tuple(nosumm)  # default summaries switched off (the function itself is under test)
 
 
 def model_dict(c, model):
@@ -576,6 +577,8 @@ def run_item(gid, item, cfg):
         saved_summ = dict(envr.program.summaries)
         for u in run.use:
             envr.program.summaries.update(summaries.MODULAR[u])
+        for q in run.nosumm:
+            envr.program.summaries.pop(q, None)
         envr.interp.loop_cuts = run.cuts or {}
         try:
                 results = explore.explore(task, max_paths=cfg.get('max_paths', 200000), timeout_ms=cfg.get('solver_ms', 10000),
